@@ -14,6 +14,7 @@ use std::time::Instant;
 static ALLOC: mc_core::alloc::VerifAlloc = mc_core::alloc::VerifAlloc;
 
 fn main() {
+    mc_core::run::tune_malloc();
     let cli = Cli::parse();
     mc_core::run::install_panic_hook();
     let rep = Report::new(&cli.check);
